@@ -4,7 +4,8 @@
     to the running code by the correspondence check (harness/c15.py). *)
 From Coq Require Import NArith ZArith List Bool Permutation.
 From Exactly Require Import Lib.Tree Model.Files Spec.C15
-  Proofs.FilesPopulate Proofs.FilesDenote Proofs.FilesSafe Proofs.FilesGen Proofs.FilesMatch Proofs.FilesMatchCor.
+  Proofs.FilesPopulate Proofs.FilesDenote Proofs.FilesSafe Proofs.FilesGen Proofs.FilesMatch Proofs.FilesMatchCor
+  Proofs.FilesWf Proofs.FilesRoundTrip Proofs.FilesGood.
 Import ListNotations.
 
 (* ------------------------------------------------------------------------------------------ *)
@@ -183,6 +184,44 @@ Theorem C15_files_of_selection :
 Proof. exact files_sub_set. Qed.
 Print Assumptions C15_files_of_selection.
 
+(** The declarative semantics leaves [matches] undefined for a "set" of files in which a relative
+    path occurs twice.  That never happens for a directory tree (unique names in every directory,
+    also behind links): the files of every model - recursive or not, with any limits, selection
+    and pruning - have pairwise different relative paths. *)
+Theorem C15_files_have_distinct_paths :
+  forall (M : smodel) (L : list elem),
+    wf_tree (sm_dir M) -> spec_files M = Some L -> distinct_rels L = true.
+Proof. exact spec_files_distinct. Qed.
+Print Assumptions C15_files_have_distinct_paths.
+
+(* ------------------------------------------------------------------------------------------ *)
+(** * Populate, then match *)
+
+(** [listing t [] abs]: every file below [t], depth first; [cond_of]: the FILES-CONDITION with one
+    line [PATH : type TYPE] per file.  On a tree without links, with unique plain names, the
+    complete typed listing satisfies [matches -full] on the recursive contents (declaratively). *)
+Theorem C15_listing_matches_full :
+  forall gs gp (t : tree) (abs : path),
+    link_free t = true -> wf_tree t -> plain_tree t ->
+    sem_fsm gs gp (SMatches true (cond_of (listing t [] abs)))
+            (SModel t abs (Rec None None) (fun _ => Some true) (fun _ => Some false)) = Some true.
+Proof. exact listing_matches_full. Qed.
+Print Assumptions C15_listing_matches_full.
+
+(** Populating an empty directory from a validated FILE-LIST (the sources of dir-contents-of well
+    formed) and then asking [dir-contents -recursive matches -full] for the complete typed listing of
+    what was produced: holds, in the model of the code, for every order of directory listings. *)
+Theorem C15_populate_then_match_full :
+  forall (es : list entry) (t : tree),
+    entries_valid es = true -> Forall sources_good es ->
+    populate es [] (Dir []) = (t, Done) ->
+    forall (scandir : path -> dirc -> dirc), (forall p l, Permutation (scandir p l) l) ->
+    forall gs gp (abs : path),
+      eval_fsm scandir gs gp (SMatches true (cond_of (listing t [] abs)))
+               (FsModel t abs (Rec None None) None None) = Ok true.
+Proof. exact populate_then_matches_full. Qed.
+Print Assumptions C15_populate_then_match_full.
+
 (* ------------------------------------------------------------------------------------------ *)
 (** * Non-vacuity *)
 
@@ -214,4 +253,18 @@ Example C15_example_matcher :
   /\ eval_fm id_order no nop (FDirContents (Rec None None) (SPrune (FType TSymlink) (SNumFiles CEq 3))) e = Ok true
   /\ sem_fm no nop (FDirContents NonRec (SEvery (FContents TEmpty))) e = None
   /\ eval_fm id_order no nop (FDirContents NonRec (SEvery (FContents TEmpty))) e = Err EHard.
+Proof. vm_compute. repeat split; reflexivity. Qed.
+
+(** populate-then-match on the example: the listing has 4 files; the condition is the one a user
+    would write ("a : type dir / a/b : type file / c : type dir / c/b : type file") *)
+Example C15_example_round_trip :
+  let es := [EFile n_ab (Some (Create, n_c)); EDir n_c; EFile n_ab (Some (Append, n_c));
+             EDirList n_c Append [EFile n_b None]] in
+  let t := fst (populate es [] (Dir [])) in
+  length (listing t [] [n_a]) = 4%nat
+  /\ fc_names (cond_of (listing t [] [n_a])) = [[n_a]; [n_a; n_b]; [n_c]; [n_c; n_b]]
+  /\ eval_fsm id_order (fun _ _ => None) (fun _ _ => None) (SMatches true (cond_of (listing t [] [n_a])))
+               (FsModel t [n_a] (Rec None None) None None) = Ok true
+  /\ eval_fsm id_order (fun _ _ => None) (fun _ _ => None) (SMatches true (cond_of (listing t [] [n_a])))
+               (FsModel t [n_a] NonRec None None) = Ok false.
 Proof. vm_compute. repeat split; reflexivity. Qed.
